@@ -14,7 +14,8 @@
 EXTENDS Lexer, TLC, Json
 
 CONSTANTS L,      \* all strings up to this length
-          C       \* context length of the sandwich family
+          C,      \* context length of the sandwich family
+          K       \* interior length of the comment family
 
 VARIABLES inp, ph
 
@@ -24,11 +25,19 @@ Upto(n) == IF n = 0 THEN {<<>>} ELSE Upto(n - 1) \cup {Append(u, ch) : u \in {w 
 SepForms == {<<"S">>, <<"T">>, <<"R", "N">>, <<"N">>, <<"-", "-", "x", "N">>, <<"/", "*", "y", "*", "/">>,
              <<"/", "*", "x", "/", "*", "y", "*", "/", "x", "*", "/">>, <<"/", "*", "N", "*", "/">>, <<"/", "*", "*", "/">>}
 
+\* third family: a block comment with EVERY interior of length <= K over the characters that structure it (line breaks,
+\* hyphens, comment brackets, text), between single-character contexts: what a line-oriented implementation can get wrong
+\* inside a comment that spans lines ("--" at the start of a line of a block comment is ordinary comment text)
+CIn == {"N", "-", "x", "S", "/", "*"}
+RECURSIVE Interiors(_)
+Interiors(n) == IF n = 0 THEN {<<>>} ELSE Interiors(n - 1) \cup {Append(u, ch) : u \in {w \in Interiors(n - 1) : Len(w) = n - 1}, ch \in CIn}
+
 \* ph = "grow": strings grown character by character; "seed": left context of a sandwich; "done": a complete sandwich
-Init == (ph = "grow" /\ inp = <<>>) \/ (ph = "seed" /\ inp \in Upto(C))
+Init == (ph = "grow" /\ inp = <<>>) \/ (ph = "seed" /\ inp \in Upto(C)) \/ (ph = "cseed" /\ inp \in Upto(1))
 Next ==
   \/ ph = "grow" /\ Len(inp) < L /\ ph' = "grow" /\ \E ch \in Sigma : inp' = Append(inp, ch)
   \/ ph = "seed" /\ ph' = "done" /\ \E m \in SepForms, w \in Upto(C) : inp' = inp \o m \o w
+  \/ ph = "cseed" /\ ph' = "done" /\ \E m \in Interiors(K), w \in Upto(1) : inp' = inp \o <<"/", "*">> \o m \o <<"*", "/">> \o w
 Spec == Init /\ [][Next]_<<inp, ph>>
 
 Agree == Unterminated(inp) \/ TokImpl(inp) = LexSpec(inp)
@@ -47,5 +56,5 @@ Relayout ==
      (x[1] = "-" /\ i > 1 /\ inp[i - 1] = "-") \/
      Strip(LexSpec(InsertAt(inp, i, x))) = Strip(LexSpec(inp))
 
-Emit == ph = "seed" \/ PrintT(<<"REPLAY", ToJson([s |-> inp, toks |-> TokImpl(inp), unterminated |-> Unterminated(inp)])>>)
+Emit == ph \in {"seed", "cseed"} \/ PrintT(<<"REPLAY", ToJson([s |-> inp, toks |-> TokImpl(inp), unterminated |-> Unterminated(inp)])>>)
 =============================================================================
